@@ -261,6 +261,13 @@ impl<'r, 'a, RT: Runtime + 'r> Machine<'r, 'a, RT> {
 
     pub fn execute(mut self) -> Result<Output, ActorError> {
         while self.pc < self.bytecode.len() {
+            #[cfg(feature = "verif-hooks")]
+            if !crate::verif_hooks::consume() {
+                return Err(ActorError::unchecked(
+                    fvm_shared::error::ExitCode::SYS_OUT_OF_GAS,
+                    "verif-hooks: out of fuel".into(),
+                ));
+            }
             // This is faster than the question mark operator, and speed counts here.
             #[allow(clippy::question_mark)]
             if let Err(e) = self.step() {
